@@ -84,6 +84,10 @@ pub struct SearchRec {
     pub max_nodes: u64,
     /// poll index at which the GUI's `stop` line was handed to the engine
     pub stop_handed_at_poll: Option<u64>,
+    /// the time limit the caller put on this search (movetime, or the mover's remaining clock), as
+    /// an absolute simulated instant: a poll that sees the clock past it must be the last one
+    pub caller_deadline_ns: Option<u64>,
+    pub polls_past_deadline: u64,
     pub finished: bool,
     /// clock value when `bestmove` was logged / the search returned
     pub finished_ns: Option<u64>,
@@ -157,6 +161,8 @@ pub struct Sim {
     pub searches: Vec<SearchRec>,
     /// stop injection for the *next* search created (World B) / all searches
     pub next_stop_at_poll: Option<u64>,
+    /// time limit (ns from creation) the caller puts on the next search created
+    pub next_caller_limit_ns: Option<(u64, bool)>,
     /// expire: make every search see "stop" (tear-down after the input thread has returned)
     pub teardown: bool,
     pub process_exited: bool,
@@ -180,6 +186,10 @@ pub struct Sim {
     /// bound for the "stop honoured" liveness oracle, in polls after the stop line was handed over
     pub stop_liveness_bound: u64,
     pub liveness_violation: Option<String>,
+    /// polls of all searches so far (the simulator's measure of search-thread progress)
+    pub global_polls: u64,
+    /// the input thread took this line at this global poll count and has not come back for the next
+    pub input_busy: Option<(u64, String)>,
     /// hard cap on should_stop calls per search (harness budget; exceeding it => inconclusive)
     pub node_cap: u64,
     pub node_cap_hit: bool,
@@ -222,6 +232,8 @@ pub trait LineSource {
 
 /// The part of `Sim` a line source may look at while deciding.
 pub struct SimCore<'a> {
+    /// time limit of the `go` being handed over (consumed when the engine creates the search)
+    pub next_caller_limit_ns: &'a mut Option<(u64, bool)>,
     pub now_ns: u64,
     pub searches: &'a mut Vec<SearchRec>,
     pub faults: &'a mut FaultCounters,
@@ -239,6 +251,7 @@ impl Sim {
             initial_move_overhead: None,
             searches: Vec::new(),
             next_stop_at_poll: None,
+            next_caller_limit_ns: None,
             teardown: false,
             process_exited: false,
             log: Vec::new(),
@@ -255,6 +268,8 @@ impl Sim {
             faults: FaultCounters::default(),
             stop_liveness_bound: 4096,
             liveness_violation: None,
+            global_polls: 0,
+            input_busy: None,
             node_cap: u64::MAX,
             node_cap_hit: false,
             on_output: None,
@@ -422,14 +437,16 @@ impl<I: Iterator<Item = std::io::Result<String>>> Iterator for Lines<I> {
             Lines::Real(i) => i.next(),
             Lines::Sim => loop {
                 let step = with_sim(|s| {
+                    s.input_busy = None;
                     let mut src = s.stdin.take().expect("simulated stdin vanished");
                     let n = {
-                        let mut core = SimCore { now_ns: s.now_ns, searches: &mut s.searches, faults: &mut s.faults };
+                        let mut core = SimCore { next_caller_limit_ns: &mut s.next_caller_limit_ns, now_ns: s.now_ns, searches: &mut s.searches, faults: &mut s.faults };
                         src.next(&mut core)
                     };
                     s.stdin = Some(src);
                     match &n {
                         Next::Line(l) => {
+                            s.input_busy = Some((s.global_polls, l.clone()));
                             s.last_line_in = Some(l.clone());
                             s.log(Event::In(l.clone()))
                         }
@@ -520,6 +537,7 @@ pub fn limits(
             }
         }
         let stop_at_poll = s.next_stop_at_poll.take();
+        let pending_limit = s.next_caller_limit_ns.take();
         let now = s.now_ns;
         s.searches.push(SearchRec {
             id,
@@ -536,6 +554,12 @@ pub fn limits(
             calls_after_forced: 0,
             max_nodes: 0,
             stop_handed_at_poll: None,
+            // a remaining-clock limit binds only under C14's precondition (overhead <= R/2): with a
+            // larger overhead the engine deliberately budgets from the overhead value instead
+            caller_deadline_ns: pending_limit
+                .filter(|(l, is_clock)| !*is_clock || (move_overhead.as_nanos() as u64).saturating_mul(2) <= *l)
+                .map(|(l, _)| now.saturating_add(l)),
+            polls_past_deadline: 0,
             finished: false,
             finished_ns: None,
             max_poll_gap_ns: 0,
@@ -648,11 +672,37 @@ pub fn stop_poll(epoch: &Epoch) -> bool {
                 forced = true;
             }
         }
+        // a poll that saw the clock past the caller's limit must have been the last one
+        if let Some(dl) = r.caller_deadline_ns {
+            if r.polls_past_deadline >= 1 && s.liveness_violation.is_none() {
+                s.liveness_violation = Some(format!(
+                    "search #{id} polled again (poll {poll}) although its previous poll already saw the clock {} ms past the caller's time limit: expired limit ignored",
+                    (now_before.saturating_sub(dl)) / 1_000_000
+                ));
+                s.teardown = true;
+            }
+            if now_before > dl {
+                r.polls_past_deadline += 1;
+            }
+        }
         // liveness: the stop line was handed to the engine long ago and the search still polls
         if let Some(p) = r.stop_handed_at_poll {
             if poll > p + s.stop_liveness_bound && s.liveness_violation.is_none() {
                 s.liveness_violation =
                     Some(format!("search #{id} still polling {} polls after `stop` was handed to the engine", poll - p));
+                s.teardown = true;
+            }
+        }
+        // liveness: every command handed to the input thread completes while the search thread
+        // makes a bounded amount of progress (the fair scheduler guarantees the input thread steps)
+        s.global_polls += 1;
+        if let Some((since, line)) = &s.input_busy {
+            if s.global_polls > since + s.stop_liveness_bound && s.liveness_violation.is_none() {
+                s.liveness_violation = Some(format!(
+                    "the input thread has not finished `{}` after {} polls of search work",
+                    line.split_whitespace().next().unwrap_or(""),
+                    s.global_polls - since
+                ));
                 s.teardown = true;
             }
         }
